@@ -1,4 +1,5 @@
 import GeomV.C06.Model
+import GeomV.C06.Text
 /-!
 # C06 model — `json.Unmarshal` at the level of number LITERALS (number overflow inside the generic model)
 
@@ -72,5 +73,10 @@ def unmarshalL (conv : L → Option F) : Tree L → Except Err (String × Tree F
 def fromTreeL (conv : L → Option F) (t : Tree L) : Except Err (Geom F) := do
   let (ty, c) ← unmarshalL conv t
   fromGeoJSON ty c
+
+/-- `Decode` on a text: RFC 8259 scan (total parser, literals kept), then the literal-level `json.Unmarshal` and
+`FromGeoJSON`; `none` = SyntaxError -/
+def decodeText (lp : List Char → Option L) (conv : L → Option F) (txt : List Char) : Option (Except Err (Geom F)) :=
+  (Json.parse lp txt).map (fromTreeL conv)
 
 end GeomV.C06
